@@ -188,6 +188,25 @@ pub fn c16(tier: &str, seed: u64) -> Vec<Case> {
         if eq != (a == b) { c = c.fail("name-eq", "".into()); }
         v.push(c);
     }
+    // values that differ only in bits no wire field carries (NSAP: `aa` is a u32 of which 24 bits are written, `id` a
+    // u64 of which 48 are): whatever `==` says about them, equal values must hash equally and be one key of a set
+    for k in 0..(if thorough { 400 } else { 40 }) {
+        use simple_dns::rdata::NSAP;
+        let base = NSAP { afi: 0x47, idi: r.next() as u16, dfi: 1, aa: (r.next() as u32) & 0x00FF_FFFF, rsvd: 0, rd: r.next() as u16, area: r.next() as u16, id: r.next() & 0x0000_FFFF_FFFF_FFFF, sel: k as u8 };
+        let mut other = base.clone();
+        match k % 3 { 0 => other.aa |= 0x0100_0000 << (k % 8), 1 => other.id |= 1u64 << (48 + k % 16), _ => { other.aa |= 0x8000_0000; other.id |= 1u64 << 63; } }
+        let ra = ResourceRecord::new(mk_name(&[b"n".to_vec()]), CLASS::IN, 1, RData::NSAP(base));
+        let rb = ResourceRecord::new(mk_name(&[b"n".to_vec()]), CLASS::IN, 1, RData::NSAP(other));
+        let eq = ra == rb;
+        let heq = h(&ra) == h(&rb);
+        let mut set = HashSet::new();
+        set.insert(ra.clone());
+        let mut c = Case::oracle_only().tag("beyond-wire-width");
+        if eq && !heq { c = c.fail("eq-hash", "two NSAP records that differ only in bits beyond the 24 / 48 written ones compare equal but hash differently".into()); }
+        if eq != set.contains(&rb) { c = c.fail("eq-hash", "NSAP: set membership disagrees with ==".into()); }
+        if eq != (ra.rdata == rb.rdata) { c = c.fail("eq-hash", "NSAP: record and RDATA equality disagree".into()); }
+        v.push(c);
+    }
     // instance information built by inserting the same members in different orders
     for _ in 0..(if thorough { 4000 } else { 400 }) {
         let nips = r.below(5) as usize;
